@@ -26,7 +26,7 @@ block = threading.Event()
 def fake_input():
     if script:
         return script.pop(0)
-    block.wait(60); return ""
+    block.wait(90); return ""
 IH.InputHandlerRequest._get_input = staticmethod(fake_input)
 log = []
 class S(UIScreen):
@@ -53,7 +53,7 @@ def epoch(lines):
             App.run(); res["o"] = "returned"
         except BaseException as e:      # noqa
             res["o"] = type(e).__name__
-    t = threading.Thread(target=go, daemon=True); t.start(); t.join(8)
+    t = threading.Thread(target=go, daemon=True); t.start(); t.join(40)
     sys.stdout = real_out
     return [res.get("o", "HANG"), list(log)]
 out = [epoch(["r", "c"]), epoch(["x", "r", "c"]), epoch(["c"])]
